@@ -926,6 +926,20 @@ func (s *c15Session) compare(argv []string, rb, ra kit.Value) error {
 	}
 	name := c15CmdName(argv)
 	switch name {
+	case "LCS":
+		// a map whose fields Redis sends in a fixed, documented order (matches, len): a RESP2
+		// client reads the flat array by position, so the down-conversion keeps the order of the pairs
+		if err := generic(); err != nil {
+			return err
+		}
+		if rb.K == kit.KMap && ra.K == kit.KArr && len(ra.A) == len(rb.A) {
+			for i := 0; i+1 < len(rb.A); i += 2 {
+				if !c15Match(rb.A[i], ra.A[i]) {
+					return fmt.Errorf("reply A lists the fields in another order than reply B (field %d is %s in B and %s in A)", i/2, rb.A[i], ra.A[i])
+				}
+			}
+		}
+		return nil
 	case "SMEMBERS", "SINTER", "SUNION", "SDIFF", "HKEYS", "HVALS", "KEYS", "COMMAND LIST":
 		if !c15MatchUnordered(rb, ra) {
 			return fmt.Errorf("reply A is not the down-conversion of reply B (compared as multisets)")
